@@ -1,12 +1,24 @@
 INIT GenInit
 NEXT GenNext
 CONSTANTS
+  Tier = "thorough"
   WithReserved = TRUE
+  Dev = "none"
   Headers <- GenHeaders
   SpsCounts = {0, 1, 2, 3, 30, 31}
   PpsCounts = {0, 1, 2, 3, 254, 255}
   NalCounts = {0, 1, 2, 3, 5, 17}
   SizePatterns <- ThoroughPatterns
+  PosSizes = {1, 2, 3, 4, 5, 255, 256, 257, 65535, 65536}
+  PosCounts = {2, 3}
+  RecPosSizes = {1, 2, 3, 255, 256, 65535}
+  RecPosCounts = {0, 1, 2}
+  PosHeaders <- GenPosHeaders
+  MimicSizes = {1, 2, 4, 5, 6, 9, 300}
+  Mimics <- GenMimics
+  MimicCounts = {1, 2}
+  HeaderMatrix <- GenMatrix
+  MatrixLsm1 = {0, 3}
   MaxBytes = 40000000
 INVARIANT Emit
 CHECK_DEADLOCK FALSE
